@@ -1,6 +1,7 @@
 import Sx.Prog
 import Sx.F
 import Sx.Gen.Consts
+import Sx.Model.Beacon
 /-
   Hand-written executable model of src/sx127x.c: one definition per C function, same name
   (camel-cased), same order of shadow-layer calls.  Constants come from `Sx.Gen` (regenerated
@@ -618,47 +619,6 @@ def fskOokTxSetForTransmissionWithAddress (data : List UInt8) (addressTo : UInt8
     packetStore 0 addressTo
     packetCopy 1 data
     fskOokTxWithRemaining (UInt16.ofNat (n + 1))
-
-/-- `sx127x_timer_coefficient`: the 8-bit timer coefficient of a float, saturated at 255;
-    `none` = the float→`uint8_t` conversion is out of range (negative below -1, or NaN) -/
-def timerCoefficient (x : F) : Option Nat :=
-  if F.gt x (F.ofNat b32 255) then some 255 else F.toUInt 8 x
-
-/-- result of the timer selection of `sx127x_fsk_ook_tx_start_beacon`:
-    (timer1 coefficient, timer2 coefficient, RegTimerResol value); `none` = a float→`uint8_t`
-    conversion out of range -/
-def beaconTimers (intervalMs : Nat) : Option (UInt8 × UInt8 × UInt8) :=
-  let p1 := f32 (64/1000)
-  let p2 := f32 (41/10)
-  let p3 := f32 262
-  let iv := F.ofNat b32 intervalMs
-  let c255 := F.ofNat b32 255
-  let two := F.ofNat b32 2
-  let m (a b : F) := F.mul b32 a b
-  let d (a b : F) := F.div b32 a b
-  let a (x y : F) := F.add b32 x y
-  -- (resolution1, timer1 coefficient as a float, resolution2 if it does not depend on the rest)
-  let choice : F × F × Option F :=
-    if F.le iv (m (m c255 p1) two) then (p1, d (d iv p1) two, some p1)
-    else if F.le iv (a (m c255 p2) (m c255 p1)) then (p2, d iv p2, some p1)
-    else if F.le iv (m (m c255 p2) two) then (p2, d (d iv p2) two, some p2)
-    else if F.le iv (a (m c255 p3) (m c255 p2)) then (p3, d iv p3, none)
-    else (p3, d (d iv p3) two, some p3)
-  let (r1, c1f, r2o) := choice
-  match timerCoefficient c1f with
-  | none => none
-  | some c1 =>
-    let rem := F.sub b32 iv (m r1 (F.ofNat b32 c1))
-    -- timer2 counts what is left in the finest resolution that can hold it
-    let r2 := match r2o with
-      | some r => r
-      | none => if F.le rem (m c255 p1) then p1 else p2
-    match timerCoefficient (d rem r2) with
-    | none => none
-    | some c2 =>
-      let hi : Nat := if F.eq r1 p1 then 0x04 else if F.eq r1 p2 then 0x08 else 0x0c
-      let lo : Nat := if F.eq r2 p1 then 0x01 else if F.eq r2 p2 then 0x02 else 0x03
-      some (u8 c1, u8 c2, u8 (hi + lo))
 
 /-- `sx127x_fsk_ook_tx_start_beacon` -/
 def fskOokTxStartBeacon (data : List UInt8) (intervalMs : Nat) : DM Unit := do
